@@ -3,7 +3,7 @@
  * value_stubs.h (their proved contracts in executable form), the three matrix readers c3d::readParam are recording stubs
  * that state their precondition (a non-empty dimension list: they index dimension[currentIdx]) and consume the bytes of
  * the matrix.
- * Bound: image of VF_IMG bytes, |name length| <= 2, at most 2 dimensions (records announcing more are cut), strings asked
+ * Bound: image of VF_IMG bytes, |name length| <= 2, at most 3 dimensions (records announcing more are cut), strings asked
  * from readString <= 4 characters (longer requests are cut). */
 #define VF_STUB_STR_CUT
 #include "vf_harness.h"
@@ -22,9 +22,11 @@ static void stubp_consume(struct c3d *self, const vf_vec_size_t *d, unsigned wid
 {
   /*@ C16 C13 : Parameter_read.matrix-reader-gets-at-least-one-dimension */
   __CPROVER_assert(d->size >= 1, "c3d::readParam indexes dimension[currentIdx]: the dimension list must not be empty");
-  __CPROVER_assume(d->size <= 2);
-  size_t n = 1;
-  for (size_t i = 0; i < 2; ++i) if (i < d->size) n *= d->data[i];
+  __CPROVER_assume(d->size <= 3);
+  size_t n = 1, loops = 1;
+  for (size_t i = 0; i < 3; ++i) if (i < d->size) { n *= d->data[i]; loops *= d->data[i] ? d->data[i] : 1; }
+  /*@ C16 : Parameter_read.matrix-reader-work-bounded-by-the-record */
+  __CPROVER_assert(loops <= 65535, "the loops of the matrix readers (product of the non-zero dimensions) stay within what a 65535-byte record can hold");
   vf_stream *f = &self->vf_base;
   size_t want = n * width;
   size_t avail = (!f->eof && !f->fail && f->pos >= 0 && (size_t)f->pos < f->len) ? f->len - (size_t)f->pos : 0;
@@ -78,7 +80,7 @@ void h_B_Parameter_read(void)
   /* record: name[L] offset(2) type(1) ndims(1) dims[nd] data... desclen(1) desc */
   int type = (int)(signed char)img[L + 2];
   int nd = (int)(signed char)img[L + 3];
-  __CPROVER_assume(nd <= 2);                     /* bound: at most 2 dimensions */
+  __CPROVER_assume(nd <= 3);                     /* bound: at most 3 dimensions */
   vf_mr_calls = 0; vf_exc = 0;
   int ret = Parameter__read(self, file, nb);
   _Bool known_type = (type == -1 || type == 1 || type == 2 || type == 4);
